@@ -257,16 +257,24 @@ def p_deep(rng):
     on the small initial stack of a fresh green thread: the VM stack is re-allocated several times while frames hold the only
     references to fresh objects"""
     d = rng.choice([300, 700, 1500, 3000, 6000])
+    # every frame checks, AFTER the recursive call has returned, the contents of what only its own stack slots kept alive (a frame whose
+    # objects were reclaimed and re-used by a deeper frame's objects of the same shape has the right length but the wrong contents)
     shape = rng.choice([
-        "(define (deep n . rest) (if (= n 0) (length rest) (+ (length rest) (deep (- n 1) (list n) (vector n) (* 1.5 n)))))",
-        "(define (deep n . rest) (if (= n 0) 0 (+ 1 (apply deep (- n 1) (list (number->string n) (list n))))))",
-        "(define (deep n) (if (= n 0) 0 (+ 1 (car (map (lambda (x) (deep (- n 1))) (list (vector n)))))))",
-        "(define (deep n) (if (= n 0) '() (cons (make-string 2 #\\a) (deep (- n 1)))))",
-        "(define (deep n . opt) (let ((v (vector n opt))) (if (= n 0) 0 (+ (vector-length v) -2 1 (deep (- n 1) v)))))",
+        "(define (deep n . rest) (if (= n 0) (length rest) (let ((r (deep (- n 1) (list n) (vector n) (* 1.5 n)))) (+ r (length rest) "
+        "(if (or (null? rest) (and (equal? (car rest) (list (+ n 1))) (equal? (cadr rest) (vector (+ n 1))) (= (car (cddr rest)) (* 1.5 (+ n 1))))) 0 1000000)))))",
+        "(define (deep n . rest) (if (= n 0) 0 (let ((r (apply deep (- n 1) (list (number->string n) (list n))))) (+ 1 r "
+        "(if (or (null? rest) (and (equal? (car rest) (number->string (+ n 1))) (equal? (cadr rest) (list (+ n 1))))) 0 1000000)))))",
+        "(define (deep n) (if (= n 0) 0 (+ 1 (car (map (lambda (x) (let ((r (deep (- n 1)))) (if (= (vector-ref x 0) n) r (+ r 1000000)))) (list (vector n)))))))",
+        "(define (deep n) (if (= n 0) '() (cons (number->string n) (deep (- n 1)))))",
+        "(define (deep n . opt) (let ((v (vector n opt))) (if (= n 0) 0 (let ((r (deep (- n 1) v))) (+ r 1 "
+        "(if (and (= (vector-ref v 0) n) (eq? (vector-ref v 1) opt) (or (null? opt) (= (vector-ref (car opt) 0) (+ n 1)))) 0 1000000))))))",
+        # many direct arguments to a variadic procedure: the rest list is consed inside the call sequence itself, right after the stack check
+        "(define (deep n . rest) (if (= n 0) 0 (let ((r (deep (- n 1) n (+ n 1) (list n) n (number->string n) n n (vector n) n n))) (+ r 1 "
+        "(if (or (null? rest) (equal? rest (let ((m (+ n 1))) (list m (+ m 1) (list m) m (number->string m) m m (vector m) m m)))) 0 1000000)))))",
     ])
     call = "(deep %d)" % d
-    fin = "(let ((r %s)) (write (if (pair? r) (length r) r)))" % (call if rng.chance(1, 2) else "(thread-join! (thread-start! (make-thread (lambda () %s))))" % call)
-    src = shape + "\n" + fin + " (newline)\n(write (let ((r (deep 10))) (if (pair? r) (length r) r))) (newline)\n"
+    fin = "(let ((r %s)) (write (if (pair? r) (list (length r) (apply + (map string-length r)) (car r) (list-ref r (quotient (length r) 2))) r)))" % (call if rng.chance(1, 2) else "(thread-join! (thread-start! (make-thread (lambda () %s))))" % call)
+    src = shape + "\n" + fin + " (newline)\n(write (let ((r (deep 10))) (if (pair? r) r r))) (newline)\n"
     return "deep", src, ["(srfi 18)"]
 
 
@@ -400,7 +408,7 @@ def p_compile(rng):
 
 FAMILIES = [
     (p_reader_writer, 3), (p_strings, 3), (p_bignum, 3), (p_hash, 3), (p_sort, 2), (p_bits, 2), (p_json, 2),
-    (p_ports, 2), (p_control, 3), (p_deep, 4), (p_threads, 2), (p_vectors, 2), (p_numbers, 2), (p_tower, 3), (p_compile, 2),
+    (p_ports, 2), (p_control, 3), (p_deep, 6), (p_threads, 2), (p_vectors, 2), (p_numbers, 2), (p_tower, 3), (p_compile, 2),
 ]
 
 ALL_IMPORTS = ["(scheme char)", "(srfi 1)", "(srfi 18)", "(srfi 69)", "(srfi 95)", "(srfi 151)", "(chibi json)"]
